@@ -640,3 +640,6 @@ def workload(ctx):
     ctx.floor("helper_checks", 50)
     ctx.floor("handler:CSEMapper.map_sum", 1000)
     ctx.floor("handler:CSEMapper.map_common_subexpression", 100)
+
+
+RULE = RULE + '  Later additions: commuted copies that differ only 1-12 levels down; calls whose function is computed; scope-only hand-placed wrappers.'
